@@ -3,8 +3,11 @@
  R1 the dedicated error is raised exactly under  n_R < M  (strict), n_R = row count of the reporting frame returned by get_units;
  R2 M is the running maximum, from 0, over all requested interval levels of the model's own minimum;
  R3 the gate (and the duplicate-id check) dominates every model computation of get_estimates and its true branch always raises;
- R4 every dispatched estimator defines its minimum, and the minimum / training-fraction formulas are the documented ones;
- R5 duplicate reporting unit ids - counted per unit id (value_counts / duplicated(subset=id)), not per identical row - raise
+ R4 every dispatched estimator defines its minimum, and the minimum / training-fraction formulas are the documented ones (the
+    bootstrap's is any positive number); R4.bootstrap-width: the bootstrap fits least squares, also on 4/5 of the rows, so its minimum
+    has to look at the width of the design (today the constant 10: open known finding K6);
+ R5 duplicate reporting unit ids - counted per unit id (value_counts / duplicated(subset=id)), not per identical row, and in the
+    combined data BEFORE the exclusion rules of get_units, over every id that has a row at or above the threshold (F30) - raise
     ModelClientException (the base class, not the not-enough-subunits subclass);
  R6 split arithmetic, structural part: the number of training rows is  max(floor(n_train * fraction), 1)  with n_train the row
     count of the reporting frame - never 0 (an empty training set cannot be fit), the calibration rows are the rest, and the
@@ -45,6 +48,36 @@ def _get_units_elem(t, i):
     """t is element i of the tuple returned by <CombinedDataHandler>.get_units(..)"""
     return (t[0] == "sub" and t[2] == ("const", i) and t[1][0] == "call" and t[1][1][0] == "attr"
             and t[1][1][2] == "get_units")
+
+
+def _counted_in_combined(l):
+    """(ids come from <CombinedDataHandler(..)>.data['geographic_unit_fips'], row selection covers all reporting ids, text)"""
+    vcs = [x for x in ir.walk(l) if x[0] == "call" and x[1][0] == "attr" and x[1][2] == "value_counts"]
+    for vc in vcs:
+        r = vc[1][1]
+        sels = []
+        while r[0] == "sub" and not (r[2][0] == "const" and isinstance(r[2][1], str)):
+            sels.append(r[2])
+            r = r[1]
+        if not (r[0] == "sub" and r[2] == ("const", "geographic_unit_fips") and r[1][0] == "attr" and r[1][2] == "data"
+                and "CombinedDataHandler(" in ir.show(r[1][1], maxdepth=2)):
+            continue
+        frame = r[1]
+
+        def reporting_mask(m):
+            m = ir.comm(m, ">=") if False else m
+            return (m[0] == "cmp" and m[1] == ">=" and m[2] == ("sub", frame, ("const", "percent_expected_vote"))
+                    and m[3] == ("param", "percent_reporting_threshold"))
+
+        ok = True
+        for m in sels:
+            direct = reporting_mask(m)
+            via_ids = (m[0] == "call" and m[1][0] == "attr" and m[1][2] == "isin" and m[1][1] == r and len(m[2]) == 1
+                       and m[2][0][0] == "sub" and m[2][0][1] == r and reporting_mask(m[2][0][2]))
+            if not (direct or via_ids):
+                return True, False, ir.show(m, maxdepth=4)
+        return True, ok, ""
+    return False, False, ""
 
 
 def _running_max(t, loop_iter_pred, elem_call_pred):
@@ -197,9 +230,19 @@ def check(ctx):
             ctx.ob("C14.R4.minimum", f"{cn}|minimum formula", ok, m.where(),
                    "minimum = 10 * 0.7 = 7" if ok else f"minimum is {val.key()}, documented 7 (10 x fixed 0.7 fraction)")
         else:
-            ok = val.is_const() and val.cval() == 10
+            # the statement names no number for the bootstrap: any positive constant, or max(<positive constant>, <width term>)
+            pos = lambda x: x[0] == "const" and isinstance(x[1], (int, float)) and x[1] >= 1  # noqa: E731
+            ok = pos(rt) or (rt[0] == "call" and rt[1] == ("global", "max") and any(pos(a_) for a_ in rt[2]))
             ctx.ob("C14.R4.minimum", f"{cn}|minimum formula", ok, m.where(),
-                   "minimum = 10" if ok else f"minimum is {val.key()}, documented 10")
+                   f"minimum = {ir.show(rt, maxdepth=4)} (at least 1)" if ok else f"minimum is {ir.show(rt, maxdepth=4)}: not a positive number of units")
+            # "whenever that minimum is met the run completes": the bootstrap fits least squares (also on 4/5 of the rows, inside the
+            # cross-validation of lambda), which needs at least as many rows as the design has columns - so a minimum that never looks
+            # at the design cannot be enough for every feature list
+            width = any(x[0] == "attr" and x[2] in ("features", "fixed_effects", "featurizer", "strata") for x in ir.walk(rt))
+            ctx.ob("C14.R4.bootstrap-width", f"{cn}|minimum accounts for the width of the design", width, m.where(),
+                   "the bootstrap minimum depends on the requested features / fixed effects" if width else
+                   f"the bootstrap minimum is {ir.show(rt, maxdepth=3)} whatever the design: with more columns than (4/5 of) the reporting units "
+                   f"the least-squares fits of cv_lambda / the main fit fail with a shape error although the minimum is met")
     np_cls = repo.cls("elexmodel.models.NonparametricElectionModel", "NonparametricElectionModel")
     cf = np_cls.lookup("_compute_conf_frac")
     cs = ctx.builder().summarize(cf)
@@ -282,6 +325,20 @@ def check(ctx):
             on_R = any(_get_units_elem(x, 0) for x in ir.walk(l))
             gt1 = any(x[0] == "cmp" and x[1] == ">" and x[3] == ("const", 1) for x in ir.walk(l))
             thr = last[0][3] == ("const", 0) and last[0][1] in (">", "!=")
+            # F30: the ids have to be counted BEFORE the exclusion rules of get_units: in the combined data (baseline join feed),
+            # over the rows of every id that has a row at or above the threshold (or over all rows)
+            on_combined, sel_ok, sel_txt = _counted_in_combined(l)
+            if uses_counts and gt1 and thr and on_R and not on_combined:
+                ctx.ob("C14.R5.duplicates", f"{ge.qualname}|duplicate ids rejected", False, ge.where(n),
+                       "the ids are counted among the modelled reporting units that get_units returns: a second row of a reporting unit goes "
+                       "unnoticed when it is below the threshold (the unit is then counted and predicted) or when an exclusion rule (turnout "
+                       "factor, blocklist ..) removes the id - both rows - from that frame")
+                continue
+            if uses_counts and gt1 and thr and on_combined:
+                ctx.ob("C14.R5.duplicates", f"{ge.qualname}|duplicate ids rejected", sel_ok, ge.where(n),
+                       "raises when the id of a unit that has a row at or above the threshold occurs more than once in the combined data (before "
+                       "any exclusion rule)" if sel_ok else f"ids are counted in the combined data but over {sel_txt}: not every reporting unit is covered")
+                continue
             ok = uses_counts and on_R and gt1 and thr
             # other exact idioms: R[id].duplicated() / R.duplicated(subset=id) selecting rows, length > 0
             if not ok and on_R and thr:
